@@ -2,7 +2,7 @@
    explicit wrap-around, CheckPremiumAmount) and the monitor on observed scenarios. *)
 From Coq Require Import String ZArith Bool List.
 From PS Require Import Base.Wrap Base.Corr Model.Data Model.Actions Model.Fsm Model.History Model.FsmCorr
-  Gen.ConstsSwap.
+  Model.TableChecks Model.C01Corr Gen.ConstsSwap.
 Import ListNotations.
 Open Scope Z_scope.
 
@@ -94,4 +94,6 @@ Fixpoint c12_trace_ok dec w (lp : swap_data) (es : list effect) : bool :=
 
 Definition c12_monitor (c : fsm_case) : bool :=
   let dec := fun p => assoc_str p (sc_decode c) in
-  forallb (fun s => c12_trace_ok dec (os_world s) (m_data (os_pre s)) (os_effects s)) (sc_steps c).
+  (* only the part of the scenario inside the environment assumption (see Model/C01Corr.v) *)
+  forallb (fun s => c12_trace_ok dec (os_world s) (m_data (os_pre s)) (os_effects s))
+          (allowed_prefix false (sc_steps c)).
